@@ -358,7 +358,16 @@ pub fn check_main(args: CheckArgs) -> i32 {
     all_viol.append(&mut agg.violations);
     all_viol.append(&mut agg_b.violations);
     for (mode, crashes) in [("worker", agg.crashes.clone()), ("procworker", agg_b.crashes.clone())] {
+        // a systematic crash (every cyclic case overflows the stack) can kill
+        // thousands of runs: regenerate and classify a bounded number per
+        // reason, count the rest
+        let mut per_reason: BTreeMap<String, usize> = BTreeMap::new();
         for (run, step, reason) in crashes {
+            let n = per_reason.entry(reason.clone()).or_insert(0);
+            *n += 1;
+            if *n > 6 {
+                continue;
+            }
             let file = format!("{}/crash-{}-{}-{}.json", tmpdir, a.prop, run, step);
             if dump_step(&a, mode, run, step.max(1), &file) {
                 if let Ok(txt) = std::fs::read_to_string(&file) {
